@@ -254,7 +254,13 @@ Definition subset_model (F : afont) (gids unis : list Z) (flags : Z) : outcome :
 Inductive observed :=
 | OPanic | OErr | OUnreadable
 | OOut (num_glyphs : Z) (glyphs : option (list glyph)) (hmtx : option (Z * list (Z * Z)))
-       (cmap : list (Z * Z)) (cmap4_multi : bool).
+       (cmap : list (Z * Z)) (cmap4_multi : bool)
+       (cmap4 : option (list (Z * Z))).
+(* cmap  = what skrifa's Charmap says of the subset;
+   cmap4 = what the subset's format-4 subtables say when read directly (Cmap4::iter), given only when every
+           format-4 subtable of the ORIGINAL lists exactly the BMP part of f_cmap: then the subset's format-4
+           subtables must list exactly the BMP part of the (char, new gid) list - this is what ties the
+           unmodelled range writer (to_ranges / commit_current_range / glyphIdArray) to the plan. *)
 
 Fixpoint list_eqb {A} (eqb : A -> A -> bool) (a b : list A) : bool :=
   match a, b with
@@ -281,10 +287,15 @@ Definition check_case (c : afont * (list Z * list Z * Z) * observed) : bool :=
   let '(F, (gids, unis, flags), obs) := c in
   match subset_model F gids unis flags, obs with
   | Panic, OPanic => true
-  | Out n gl hm cm, OOut n' gl' hm' cm' multi =>
+  | Out n gl hm cm, OOut n' gl' hm' cm' multi cm4 =>
       (n =? n') && opt_eqb (list_eqb glyph_eqb) gl gl'
       && opt_eqb (fun a b => (fst a =? fst b) && list_eqb pair_eqb (snd a) (snd b)) hm hm'
       && (if multi then list_eqb Z.eqb (map fst cm) (map fst cm')   (* byte encoder defect: chars only *)
           else list_eqb pair_eqb cm cm')
+      && (match cm4 with
+          | None => true
+          | Some l => let bmp := filter (fun p => fst p <? 65536) cm in
+                      if multi then list_eqb Z.eqb (map fst bmp) (map fst l) else list_eqb pair_eqb bmp l
+          end)
   | _, _ => false
   end.
